@@ -138,7 +138,8 @@ def layout_text(lay):
             dims.append("[" + ", ".join(str(b) for _, b in d) + "] -> (" + ", ".join(str(s) for s, _ in d) + ")")
         return ", #tsl.tsl<" + ", ".join(dims) + ">"
     if lay[0] == "strided":
-        return ", strided<[" + ", ".join(str(s) for s in lay[1]) + "]>"
+        off = f", offset: {lay[2]}" if len(lay) > 2 and lay[2] else ""
+        return ", strided<[" + ", ".join(str(s) for s in lay[1]) + "]" + off + ">"
     raise ValueError(lay)
 
 
@@ -187,6 +188,34 @@ def mlir_ops(op_cases, split=False):
 
 def mlir(case):
     return mlir_ops([case])
+
+
+def row_major_strides(shape):
+    st, s = [], 1
+    for n in reversed(shape):
+        st.insert(0, s)
+        s *= n
+    return st
+
+
+def mlir_global(case):
+    """operand 0 of the op is a tile (memref.subview) of an uninitialised memref.global; `uses` > 1: the global has a
+    second user (then the pattern must leave the global alone)"""
+    g, offs = case["gshape"], case["offs"]
+    o0 = case["operands"][0]
+    gst = row_major_strides(g)
+    off = sum(a * b for a, b in zip(offs, gst))
+    tile_ty = memref_ty(dict(o0, layout=["strided", gst, off]))
+    glay = f", strided<[{', '.join(map(str, gst))}]>" if case.get("glayout") else ""     # the global already has a layout
+    gty = f"memref<{'x'.join(map(str, g))}x{o0['el']}{glay}, \"L1\">"
+    text, tys = op_text(dict(case, operands=[dict(o0, layout=["strided", gst, off])] + case["operands"][1:]), 0)
+    args = ", ".join(f"%a0_{i} : {t}" for i, t in enumerate(tys) if i > 0)
+    second = f'  "test.use"(%g) : ({gty}) -> ()\n' if case.get("uses", 1) > 1 else ""
+    sub = (f"  %a0_0 = memref.subview %g[{', '.join(map(str, offs))}] [{', '.join(map(str, o0['shape']))}] "
+           f"[{', '.join('1' for _ in g)}] : {gty} to {tile_ty}\n")
+    return (f'"memref.global"() <{{alignment = 64 : i64, initial_value, sym_name = "weights", sym_visibility = "private", '
+            f'type = {gty}}}> : () -> ()\n'
+            f"func.func @f({args}) {{\n  %g = memref.get_global @weights : {gty}\n{second}{sub}{text}  func.return\n}}")
 
 
 def runs_of(case):
@@ -462,6 +491,45 @@ def gen_multi(rng):
     return {"kind": "multi", "mode": mode, "tiled": tiled, "runs": runs}
 
 
+def gen_global(rng, divides=None):
+    """the accelerator operand is a tile (memref.subview) of an uninitialised memref.global with that subview as only user:
+    realize-memref-casts then derives the layout of the whole global from the layout set-memory-layout chose for the tile"""
+    for _ in range(50):
+        c = gen_schedule(rng)
+        o0 = c["operands"][0]
+        if "A" in o0 and len(c["operands"]) <= 3 and int(np.prod(o0["shape"])) <= 512:
+            break
+    # tiles with padding are the interesting ones: small odd innermost extents
+    if rng.random() < 0.5:
+        n = rng.choice([2, 3])
+        tile = [rng.choice([2, 4, 8]), rng.choice([3, 5, 6, 12])] if n == 2 else [rng.choice([2, 4]), rng.choice([2, 3]), rng.choice([3, 5, 6])]
+        rank = len(tile)
+        nd = rank + 1
+        A = [[1 if k == j else 0 for k in range(nd)] for j in range(rank)]
+        c = dict(c, ndims=nd, bounds=tile + [rng.choice([2, 4, 8])], template=rng.choice(["gemmx_mac", "alu", "gemmx_add"]),
+                 operands=[{"shape": tile, "el": rng.choice(["i8", "i8", "i16", "i32", "f64"]), "A": A, "b": [0] * rank, "layout": None}])
+        o0 = c["operands"][0]
+    tile = o0["shape"]
+    if divides is None:
+        divides = rng.random() < 0.7
+    gshape, offs = [], []
+    for t in tile:
+        k = rng.choice([1, 1, 2, 3, 4])
+        n = t * k
+        if not divides and rng.random() < 0.6:
+            n += rng.randrange(1, t) if t > 1 else 0
+        gshape.append(n)
+        offs.append(t * rng.randrange(0, max(1, n // t)) if rng.random() < 0.5 else 0)
+    while int(np.prod(gshape)) > MAX_BOX:
+        j = max(range(len(gshape)), key=lambda j: gshape[j] // tile[j])
+        gshape[j] = max(tile[j], gshape[j] // 2 // tile[j] * tile[j])
+        offs[j] = 0
+    c = dict(c, kind="global", gshape=gshape, offs=offs, uses=2 if rng.random() < 0.1 else 1,
+             glayout=rng.random() < 0.08)
+    c["operands"] = [dict(o, layout=None) for o in c["operands"]]
+    return c
+
+
 def row_major_tsl(shape):
     lay = []
     s = 1
@@ -571,8 +639,10 @@ class C09(Prop):
             yield gen_schedule_exprs(rng)
         for _ in range(120 if q else 1500):
             yield gen_malformed(rng)
-        for _ in range(220 if q else 3000):
+        for _ in range(220 if q else 2000):
             yield gen_multi(rng)
+        for _ in range(120 if q else 1500):
+            yield gen_global(rng)
         for _ in range(150 if q else 3000):
             yield {"kind": "canon", "strides": gen_strides(rng, zeros=True)}
         for _ in range(100 if q else 2000):
@@ -600,6 +670,8 @@ class C09(Prop):
         k = case["kind"]
         if k in ("schedule", "multi"):
             return self.impl_schedule(case)
+        if k == "global":
+            return self.impl_global(case)
         if k == "canon":
             from snaxc.ir.tsl import Stride, TiledStride
             r = TiledStride([Stride(s, b) for s, b in case["strides"]]).canonicalize()
@@ -686,6 +758,34 @@ class C09(Prop):
                     r["wired"] = False
         return res
 
+    def impl_global(self, case):
+        """set-memory-layout, then realize-memref-casts (the next pass of the pipeline): the layout given to the WHOLE global"""
+        import snaxrun
+        from snaxc.dialects.tsl import TiledStridedLayoutAttr
+        from xdsl.dialects import memref
+        src = mlir_global(case)
+        passes = "set-memory-layout{tiled=%s},realize-memref-casts" % ("true" if case["tiled"] else "false")
+        with time_limit(60):
+            out = snaxrun.run_passes(src, passes)
+        mod = snaxrun.parse(out)
+
+        def lay_of(ty):
+            lay = ty.layout
+            if not isinstance(lay, TiledStridedLayoutAttr):
+                return None
+            assert lay.data.offset == 0
+            return [[[s.step, s.bound] for s in ts.strides] for ts in lay.data.tstrides]
+        globals_ = [op for op in mod.walk() if isinstance(op, memref.GlobalOp)]
+        gets = [op for op in mod.walk() if isinstance(op, memref.GetGlobalOp)]
+        subs = [op for op in mod.walk() if isinstance(op, memref.SubviewOp)]
+        assert len(gets) == 1 and len(subs) == 1
+        g = [op for op in globals_ if op.sym_name.data == gets[0].name_.string_value()]
+        assert len(g) == 1
+        return {"global": lay_of(g[0].type), "tile": lay_of(subs[0].result.type),
+                "consistent": bool(g[0].type == gets[0].memref.type and subs[0].source.type == g[0].type
+                                   and list(g[0].type.get_shape()) == list(case["gshape"])),
+                "n_globals": len(globals_)}
+
     _ENSURE_OPS = {}
     _confirmed_timeouts = 0
 
@@ -738,6 +838,9 @@ class C09(Prop):
             return self.op_requests(case)
         if k == "multi":
             return [r for op_cases, _ in runs_of(case) for oc in op_cases for r in self.op_requests(oc)]
+        if k == "global":
+            r = self.op_requests(dict(case, kind="schedule"))[0]
+            return [{"fn": "c09.opglobal", "args": dict(r["args"], gshape=case["gshape"])}]
         if k == "canon":
             return [{"fn": "c09.canon", "args": {"strides": case["strides"]}}]
         if k == "addr":
@@ -755,6 +858,14 @@ class C09(Prop):
         k = case["kind"]
         if k == "schedule":
             return self.op_model(answers)
+        if k == "global":
+            if "raised" in r:
+                return {"raised": r["raised"]}
+            # IR-level guards of the pattern (single user, layout of the global unset), not modelled in Lean
+            fires = case.get("uses", 1) == 1 and not case.get("glayout")
+            glob = r["global"] if fires else None
+            return {"global": glob, "tile": r["layouts"][0] if glob is not None else None, "consistent": True,
+                    "n_globals": 1}
         if k == "multi":
             # the specification: every op of every run is rewritten as if it were alone (the pass keeps no state)
             runs, pos = [], 0
@@ -817,6 +928,26 @@ class C09(Prop):
                     return [{"what": f"get_affine_map of {case['layout']} sends element {pt} to {a}, the layout means "
                                      f"{point_address(case['layout'], pt)}", "finding": None}]
             return []
+        if k == "global":
+            if "raised" in impl_out:
+                if wellformed(dict(case, kind="schedule")) or impl_out["raised"] == "PassTimeout":
+                    return [{"what": f"set-memory-layout,realize-memref-casts raised {impl_out['raised']} on a well-formed "
+                                     f"schedule whose operand is a tile of a global: {impl_out.get('msg')}", "finding": None}]
+                return []
+            out = []
+            if impl_out["global"] is not None:
+                tile = case["operands"][0]["shape"]
+                divides = all(n % t == 0 for n, t in zip(case["gshape"], tile))
+                if not impl_out["consistent"]:
+                    out.append({"what": "the transformed global, its get_global and the subview disagree on the type", "finding": None})
+                out += self.layout_problems(
+                    "layout chosen for the whole global", case["gshape"], impl_out["global"], case_rng(case),
+                    None if divides else "DC09a",
+                    f"(tile {tile} with layout {impl_out['tile']}, set-memory-layout{{tiled={case['tiled']}}},realize-memref-casts)")
+                if impl_out["tile"] is not None:
+                    out += self.layout_problems("layout of the tile (subview result)", tile, impl_out["tile"], case_rng(case),
+                                                "D22", "")
+            return out
         if k == "multi":
             if "raised" in impl_out:
                 all_ok = all(wellformed(oc) or any(o.get("layout") and o["layout"][0] == "tsl" for o in oc["operands"])
@@ -864,57 +995,66 @@ class C09(Prop):
             if lay is None:
                 out.append({"what": f"operand {i}: no layout_cast although the op was rewritten", "finding": None})
                 continue
-            if len(lay) != len(shape):
-                out.append({"what": f"operand {i}: layout has {len(lay)} dims, memref has {len(shape)}", "finding": None})
-                continue
-            if any(s is None or b is None or s <= 0 or b <= 0 for d in lay for s, b in d):
-                out.append({"what": f"operand {i}: dynamic ('?') or non-positive step or bound in the layout {lay} chosen for the "
-                                    f"static memref {list(shape)}", "finding": None})
-                continue
-            prods = [int(np.prod([b for _, b in d])) for d in lay]
-            under = any(p < n for p, n in zip(prods, shape))
-            tag = "D22" if under else None
-            if prods != list(shape):
-                out.append({"what": f"operand {i}: bound products {prods} != shape {list(shape)} for layout {lay} "
-                                    f"(pattern={o.get('A', o.get('exprs'))}, bounds={case['bounds']}, tiled={case['tiled']})", "finding": tag})
-            if int(np.prod(shape)) <= 4 * MAX_BOX:
-                addrs = all_addresses(lay, shape)
-                uniq, first, counts = np.unique(addrs, return_index=True, return_counts=True)
-                if len(uniq) != len(addrs):
-                    a = int(uniq[counts > 1][0])
-                    idxs = [list(map(int, np.unravel_index(int(j), shape))) for j in np.nonzero(addrs == a)[0][:2]]
-                    out.append({"what": f"operand {i}: elements {idxs[0]} and {idxs[1]} of memref {list(shape)} both live at "
-                                        f"address {a} in layout {lay}", "finding": tag})
-                # the layout's own view (DESIGN "O"): all_values() of the real class
-                tsl = real_tsl(lay)
-                vals = tsl.all_values()
-                if prods == list(shape) and (len(vals) != len(addrs) or tsl.self_overlaps()):
-                    out.append({"what": f"operand {i}: TiledStridedLayout.all_values() has {len(vals)} entries / overlaps "
-                                        f"for shape {list(shape)}", "finding": None})
-                # the compiler's own address map of the chosen layout (get_affine_map, what dart-layout-resolution uses):
-                # sampled elements everywhere, every index of a dimension with >= 3 tile levels, and the whole box when
-                # it is small -- it must agree with the layout's meaning and (small boxes) be one-to-one itself
-                m = TiledStridedLayoutAttr(tsl).get_affine_map()
-                pts = [[prng.randrange(n) for n in shape] for _ in range(4)]
-                for d, strides in enumerate(lay):
-                    if len(strides) >= 3:
-                        base = [prng.randrange(n) for n in shape]
-                        pts += [base[:d] + [j] + base[d + 1:] for j in range(min(shape[d], 96))]
-                whole = int(np.prod(shape)) <= 256
-                if whole:
-                    pts = [list(p) for p in itertools.product(*[range(n) for n in shape])]
-                seen = {}
-                for pt in pts:
-                    a = int(m.eval(pt, [])[0])
-                    if a != point_address(lay, pt):
-                        out.append({"what": f"operand {i}: get_affine_map of the chosen layout {lay} sends element {pt} to {a}, "
-                                            f"the layout means {point_address(lay, pt)}", "finding": None})
-                        break
-                    if whole and a in seen:
-                        out.append({"what": f"operand {i}: get_affine_map sends elements {seen[a]} and {pt} to the same address {a}",
-                                    "finding": None})
-                        break
-                    seen[a] = pt
+            out += self.layout_problems(f"operand {i}", shape, lay, prng, "D22",
+                                        f"(pattern={o.get('A', o.get('exprs'))}, bounds={case['bounds']}, tiled={case['tiled']})")
+        return out
+
+    def layout_problems(self, label, shape, lay, prng, under_tag, descr):
+        """THE property on one chosen layout of the real code: rank, positive static entries, bounds cover exactly the shape,
+        distinct elements at distinct addresses (by the layout's meaning, by the class' all_values(), by get_affine_map)"""
+        from snaxc.dialects.tsl import TiledStridedLayoutAttr
+        out = []
+        if len(lay) != len(shape):
+            out.append({"what": f"{label}: layout has {len(lay)} dims, memref has {len(shape)}", "finding": None})
+            return out
+        if any(s is None or b is None or s <= 0 or b <= 0 for d in lay for s, b in d):
+            out.append({"what": f"{label}: dynamic ('?') or non-positive step or bound in the layout {lay} chosen for the "
+                                f"static memref {list(shape)}", "finding": None})
+            return out
+        prods = [int(np.prod([b for _, b in d])) for d in lay]
+        under = any(p < n for p, n in zip(prods, shape))
+        tag = under_tag if under else None
+        if prods != list(shape):
+            out.append({"what": f"{label}: bound products {prods} != shape {list(shape)} for layout {lay} "
+                                f"{descr}", "finding": tag})
+        if int(np.prod(shape)) <= 4 * MAX_BOX:
+            addrs = all_addresses(lay, shape)
+            uniq, first, counts = np.unique(addrs, return_index=True, return_counts=True)
+            if len(uniq) != len(addrs):
+                a = int(uniq[counts > 1][0])
+                idxs = [list(map(int, np.unravel_index(int(j), shape))) for j in np.nonzero(addrs == a)[0][:2]]
+                out.append({"what": f"{label}: elements {idxs[0]} and {idxs[1]} of memref {list(shape)} both live at "
+                                    f"address {a} in layout {lay}", "finding": tag})
+            # the layout's own view (DESIGN "O"): all_values() of the real class
+            tsl = real_tsl(lay)
+            vals = tsl.all_values()
+            if prods == list(shape) and (len(vals) != len(addrs) or tsl.self_overlaps()):
+                out.append({"what": f"{label}: TiledStridedLayout.all_values() has {len(vals)} entries / overlaps "
+                                    f"for shape {list(shape)}", "finding": None})
+            # the compiler's own address map of the chosen layout (get_affine_map, what dart-layout-resolution uses):
+            # sampled elements everywhere, every index of a dimension with >= 3 tile levels, and the whole box when
+            # it is small -- it must agree with the layout's meaning and (small boxes) be one-to-one itself
+            m = TiledStridedLayoutAttr(tsl).get_affine_map()
+            pts = [[prng.randrange(n) for n in shape] for _ in range(4)]
+            for d, strides in enumerate(lay):
+                if len(strides) >= 3:
+                    base = [prng.randrange(n) for n in shape]
+                    pts += [base[:d] + [j] + base[d + 1:] for j in range(min(shape[d], 96))]
+            whole = int(np.prod(shape)) <= 256
+            if whole:
+                pts = [list(p) for p in itertools.product(*[range(n) for n in shape])]
+            seen = {}
+            for pt in pts:
+                a = int(m.eval(pt, [])[0])
+                if a != point_address(lay, pt):
+                    out.append({"what": f"{label}: get_affine_map of the chosen layout {lay} sends element {pt} to {a}, "
+                                        f"the layout means {point_address(lay, pt)}", "finding": None})
+                    break
+                if whole and a in seen:
+                    out.append({"what": f"{label}: get_affine_map sends elements {seen[a]} and {pt} to the same address {a}",
+                                "finding": tag})
+                    break
+                seen[a] = pt
         return out
 
     def nontrivial(self, case, impl_out):
@@ -950,6 +1090,11 @@ class C09(Prop):
             return f"schedule:{'tiled' if case['tiled'] else 'untiled'}:{case['template']}"
         if k == "multi":
             return f"multi:{case.get('mode', '?')}:{len(case['runs'])}run"
+        if k == "global":
+            tile = case["operands"][0]["shape"]
+            if impl_out.get("global") is None:
+                return "global:untouched"
+            return "global:" + ("tile-divides" if all(n % t == 0 for n, t in zip(case["gshape"], tile)) else "tile-does-not-divide")
         return k
 
     def shrink(self, case):
